@@ -155,8 +155,10 @@ class DashTiming:
         if options.leeway is not None:
             self.leeway = datetime.timedelta(seconds=options.leeway)
         if self.minimumUpdatePeriod is not None:
-            num_refreshes = int(
-                self.elapsedTime.total_seconds() // self.minimumUpdatePeriod)
+            # exact integer division: total_seconds() is a float and loses
+            # microseconds once elapsedTime exceeds about 2**34 seconds
+            elapsed_usec = self.elapsedTime // datetime.timedelta(microseconds=1)
+            num_refreshes = elapsed_usec // (self.minimumUpdatePeriod * 1000000)
             self.publishTime = (
                 self.availabilityStartTime +
                 datetime.timedelta(seconds=(
